@@ -58,6 +58,16 @@ CLAIMED = {
             "Line-level atomicity at shared-attribute lines + every synchronisation/socket/selector operation; fake "
             "socket/selector semantics of Linux loopback; handshake is a deterministic prefix; bounded deviations.",
             "DESIGN.md 4/C04"),
+    "C05": ("SCHED", "model_checking",
+            "stateless deviation-bounded exploration of schedules and socket-write answers on the real send path",
+            "Real node opened by the real handshake; k = 1..2 (3) submitters x 1..2 messages (send_message / "
+            "send_messages) x inbound traffic {none, DWR, application message} x send-buffer limit {default, 96}; the "
+            "fake socket's send() answers {all, 1 byte, all-but-1} are environment choice points; every schedule / "
+            "answer pattern with <= 1 deviation (thorough <= 2 for k = 1); oracle: the bytes accepted by the socket are "
+            "whole submitted messages, each exactly once, per-submitter order kept, nothing left queued.",
+            "Same atomicity and fake-network assumptions as C04; DWAs/DWRs of the base protocol may appear between "
+            "whole messages; quiescence judged after 8 idle virtual seconds.",
+            "DESIGN.md 4/C05"),
     "C09": ("ENUM", "exploration",
             "bounded-exhaustive enumeration of constructor-argument subsets against a hand-written command table",
             "All 50 typed classes (discovered by introspection) x subsets of omittable arguments (sizes 0,1,2,n "
